@@ -46,6 +46,8 @@ impl OperationControl for Capture {
         matcher: &'a ReMatcher<'a>,
         position: usize,
     ) -> Box<dyn Iterator<Item = usize> + 'a> {
+        #[cfg(regexml_verif)]
+        crate::verif::tick();
         if (matcher.program.optimization_flags & OPT_HASBACKREFS) != 0 {
             matcher.set_start_backref(self.group_nr, Some(position));
         }
@@ -91,6 +93,8 @@ impl Iterator for CaptureGroupIterator<'_> {
     type Item = usize;
 
     fn next(&mut self) -> Option<Self::Item> {
+        #[cfg(regexml_verif)]
+        crate::verif::tick();
         let next = self.basis.next()?;
 
         // Increase valid paren count
